@@ -739,7 +739,7 @@ template <class T>
 IMATH_CONSTEXPR14 T
 Frustum<T>::ZToDepthExc (long zval, long zmin, long zmax) const
 {
-    int zdiff = zmax - zmin;
+    long zdiff = zmax - zmin;
 
     if (zdiff == 0)
     {
@@ -756,7 +756,7 @@ template <class T>
 IMATH_CONSTEXPR14 T
 Frustum<T>::ZToDepth (long zval, long zmin, long zmax) const IMATH_NOEXCEPT
 {
-    int zdiff = zmax - zmin;
+    long zdiff = zmax - zmin;
 
     if (zval > zmax + 1) zval -= zdiff;
 
